@@ -187,6 +187,26 @@ def run(tier):
             rep.broken_obligation("correspondence/helper", "model %r vs code %r on %s" % (model[i], impl[i], lines[i]), False)
         rep.note_cases(len(lines), set(C.sha(l)[:16] for l in lines), sample={"line": lines[7], "expected": hc[7][1]})
 
+        # big numbers are materialised lazily (digits cleaned of underscores): the accessor gives the same digits and length
+        # on every call, before and after hashing
+        bl = [b"123456789012345678901234567890", b"-42N", b"3.14159M", b"1e5M"]
+        if cfg in ("exp", "both"):
+            bl += [b"-1_000_000_000_000_000_000_000N", b"9_223_372_036_854_775_808", b"1_000.000_1M", b"1_0N", b"1__0N", b"1_2_3_4_5_6_7_8_9_0_1_2_3_4_5_6_7_8_9_0_1"]
+        bscripts = ["Q r0=%s t:0 t:0 h:0 t:0 e:0:0 t:0" % C.hexs(b) for b in bl] + ["Q r0=%s r1=%s t:0.0 t:0.1 t:0.0 e:0.0:1.0 h:0 t:0.0 t:0.1" % (C.hexs(b"[" + b + b" " + b + b"]"), C.hexs(b"[" + b + b"]")) for b in bl]
+        bi, bm, bd, bcr, _ = K.correspond(cfg, bscripts)
+        rep.count("accessor-repeats/" + cfg, len(bscripts))
+        for i in bd[:3]:
+            rep.broken_obligation("correspondence/accessor-repeat", "model %r vs code %r" % (bm[i], bi[i]), False)
+        for i, a in enumerate(bi):
+            if a is None:
+                continue
+            t = a.split("\t")
+            dumps = [x for x in t if x.startswith("(big") or x.startswith("(int") or x.startswith("(float")]
+            if len(set(dumps)) > 1:
+                found = True
+                rep.finding("accessor/unstable", "a big number reads differently on a later accessor call: %s" % sorted(set(dumps))[:2],
+                            {"kind": "line", "config": cfg, "line": bscripts[i], "observed": a[:600]})
+
         lits = literal_cases(tier, rng, cfg)
         docs = [d for d, _ in lits]
         rl = K.read_lines(docs)
